@@ -147,6 +147,10 @@ func (c *Client) InvokeContractVerify(contract util.Uint160, params []smartcontr
 // deployed in the blockchain the Client connected to and returns the call
 // result.
 func (c *Client) InvokeFunction(contract util.Uint160, operation string, params []smartcontract.Parameter, signers []transaction.Signer) (*result.Invoke, error) {
+	if ok, res, err := c.verifIntercept("InvokeFunction", contract, operation, params); ok {
+		r, _ := res.(*result.Invoke)
+		return r, err
+	}
 	var conn = c.conn.Load()
 
 	if conn == nil {
